@@ -32,7 +32,7 @@ D_ALPH = [0.0, 1e-12, 1e-3, 0.5]
 
 def bound(tier):
     return {
-        "quick": "24 adaptive settings + 4 non-adaptive, scripts with <= 1 deviation over window+5 steps; real-drive family: 4 runs",
+        "quick": "36 adaptive settings (incl. dt_init = dt_max) + 6 non-adaptive, scripts with <= 1 deviation over window+5 steps; real-drive family: 4 runs",
         "thorough": "144 adaptive settings + 12 non-adaptive, scripts with <= 2 deviations over window+6 steps; real-drive family: 12 runs",
     }[tier]
 
@@ -44,7 +44,7 @@ def floors(tier):
 def settings(tier):
     out = []
     if tier == "quick":
-        pairs, wins, mults, maxr = [(1e-4, 1e-1), (1e-2, 5e-2)], [1, 3], [0.25, 0.9], [0, 1, 3]
+        pairs, wins, mults, maxr = [(1e-4, 1e-1), (1e-2, 5e-2), (1e-3, 1e-3)], [1, 3], [0.25, 0.9], [0, 1, 3]
     else:
         pairs, wins, mults, maxr = [(1e-4, 1e-1), (1e-3, 1e-3), (1e-2, 5e-2)], [1, 2, 3, 10], [0.25, 0.5, 0.9], [0, 1, 3, 10]
     for (di, dm), w, m, r in itertools.product(pairs, wins, mults, maxr):
